@@ -8,6 +8,8 @@ Decides:
        BoundsCheck / division asserts, slice and str indexing, split_at / copy_from_slice, explicit panics, Option::unwrap —
        is discharged by a local pattern (constant index in range, divisor guarded, str index from find() on the same string,
        index guarded by a dominating length test) or reviewed in tables/panic_sites.tsv, or is a listed known finding;
+ (R7-ovf) every overflow-checked arithmetic operation (present in builds with overflow checks) whose operand is a wire-controlled
+       integer — C17's taint: LEB-parsed value, decoder value, field filled from one — has a reviewed bound (tables/overflow_sites.tsv);
  (R6d) outside hexane no trusting streaming decoder of any value type is built over non-literal bytes without a dominating
        validating load of the same bytes.
 Not decided: panic-freedom of the apply / index machinery reached after decoding (BatchApply, OpSet, hexane column edits),
@@ -244,6 +246,53 @@ def discharge(f, b, bi, kind, t):
     return None
 
 
+def guarantees(ctx, f):
+    """machine-checked facts that reviewed rows may rely on (`[requires G-…]` in a row's reason): a bound established in another
+    function is re-verified on every run, so removing it re-opens every row that cites it"""
+    out = {}
+    try:
+        b = cfg.body(f.fns[[p for p in f.fns if norm_fn(p) == "automerge::storage::bundle::builder::BundleChangeIterInner::try_next"][0]])
+    except IndexError:
+        return {"G-bundle-max-op": False, "G-bundle-start-op": False}
+    errs = {bi for bi in range(b.n)}
+
+    def named(op, name):
+        pv = b.provenance(op, through_calls=True)
+        return name in {b.local_name(l) for l in pv.locals}
+    g1 = g2 = False
+    for sb, sw in b.switches():
+        src = b.bool_operand_source(sw["op"])
+        if not src or src["kind"] != "bin" or src["op"] not in ("Gt", "Ge", "Lt", "Le"):
+            continue
+        ks = [const_of(b, o) for o in src["o"]]
+        sides = src["o"]
+        # which edge leaves with an error? the edge from which no Ok(Some(..)) aggregate of the function is reachable
+        def leaves_with_err(tb):
+            firsts = util.first_ret_assignments(b, tb)
+            return bool(firsts) and all(kind == "stmt" and util.is_err_agg(rec["rv"]) for (_, kind, rec) in firsts)
+
+        def is_u32_max(op):
+            if const_of(b, op) == "4294967295":
+                return True
+            cs = b.provenance(op).consts
+            return any((v or "").endswith("u32>::MAX") or v == "4294967295" for _, v in cs) and not b.provenance(op).params
+        edges = [tb for _, tb in sw["targets"]] + [sw["otherwise"]]
+        if not any(leaves_with_err(tb) for tb in edges):
+            continue
+        if any(is_u32_max(o) for o in sides) and any(named(o, "max_op") for o in sides):
+            g1 = True
+        if any(named(o, "start_op") for o in sides) and any(named(o, "max_op") for o in sides):
+            g2 = True
+    out["G-bundle-max-op"] = g1
+    out["G-bundle-start-op"] = g2
+    return out
+
+
+def check_requires(ctx, reason, G):
+    """returns the list of guarantees a reviewed reason cites that do not hold"""
+    return [g for g in re.findall(r"\[requires (G-[a-z-]+)\]", reason) if not G.get(g, False)]
+
+
 def check_r7a(ctx, f, owner):
     """shared with C37: Result::unwrap/expect inventory of the modules owned by `owner`"""
     mayfail = panics.MayFail(f)
@@ -271,11 +320,15 @@ def run(ctx):
     ctx.not_decided = "panic-freedom of the apply/index machinery after decoding (BatchApply, OpSet, hexane column edits), debug-only arithmetic overflow asserts, allocation-failure aborts and hangs (C17)."
     ctx.rule("R7a", "discarded error channel: Result::unwrap/expect inventory by error type and source callee")
     ctx.rule("R7b", "parse-layer inventory of panic-capable constructs with local discharge patterns")
+    ctx.rule("R7-ovf", "overflow-checked arithmetic whose operand is a wire-controlled integer (C17's taint: parsed integer, decoder value, wire-filled field) is reviewed for a bound")
     ctx.rule("R6d", "must-validate-before-trust for every trusting streaming decoder outside hexane")
     f = ctx.facts()
     check_r7a(ctx, f, "C15")
     # ---------------- R7b
     ptable = ctx.table("panic_sites.tsv")
+    G = guarantees(ctx, f)
+    for g, ok in sorted(G.items()):
+        ctx.ob("R7-ovf", "guarantee|%s" % g, ok, "", "bound established in BundleChangeIterInner::try_next (comparison whose failing edge returns Err)" if ok else "a bound that reviewed rows rely on is no longer established")
     layer = sorted(p for p, r in f.fns.items() if r["ckey"] == ("automerge", "lib") and in_layer(norm_fn(p)))
     ctx.floor("functions (and closures) in the parse layer", len(layer), 200)
     n = nauto = 0
@@ -291,11 +344,43 @@ def run(ctx):
                 nauto += 1
                 ctx.ob("R7b", k, True, sp, why, nontrivial=kind != "BoundsCheck")
             elif ("R7b|" + k) in ptable:
-                ctx.ob("R7b", k, True, sp, "reviewed: " + ptable["R7b|" + k], via="table:" + ptable["R7b|" + k])
+                broken = check_requires(ctx, ptable["R7b|" + k], G)
+                ctx.ob("R7b", k, not broken, sp, ("reviewed: " + ptable["R7b|" + k]) if not broken else "the reviewed reason relies on %s, which no longer holds" % broken, via=("table:" + ptable["R7b|" + k]) if not broken else None)
             else:
                 ctx.ob("R7b", k, False, sp, "%s %s in a function that first touches untrusted input is neither discharged by a local pattern nor reviewed" % (kind, detail))
     ctx.floor("panic-capable constructs in the parse layer", n, 40)
     ctx.note("R7b: %d constructs, %d discharged by a local pattern" % (n, nauto))
+    # ---------------- R7-ovf: arithmetic on wire-controlled integers (asserts exist in builds with overflow checks: dev facts)
+    from . import C17
+    T = C17.Taint(f)
+    otable = ctx.table("overflow_sites.tsv")
+    n_ovf = 0
+    for p, r in sorted(f.fns.items()):
+        if r["ckey"] != ("automerge", "lib"):
+            continue
+        b = None
+        sites = []
+        for bi, blk in enumerate(r["blocks"]):
+            t = blk["t"]
+            if t["k"] == "assert" and "Overflow" in (t.get("msg") or "") and not blk.get("cleanup"):
+                b = b or cfg.body(r)
+                sts = [st for st in blk["st"] if st["rv"]["k"] in ("Bin", "Un") and ("Overflow" in (st["rv"].get("op") or "") or st["rv"]["k"] == "Un")]
+                ops = sts[-1]["rv"]["o"] if sts else []
+                why = []
+                for o in ops:
+                    if util.op_const(o) is None:
+                        why += T.sources(b, o)[0]
+                if why:
+                    sites.append((bi, t, sorted(set(why))))
+        for k, (bi, t, why) in util.ordinal_keys(sites, lambda s_: "%s|%s" % (norm_fn(p), s_[1]["msg"])):
+            n_ovf += 1
+            if ("R7-ovf|" + k) in otable:
+                broken = check_requires(ctx, otable["R7-ovf|" + k], G)
+                ctx.ob("R7-ovf", k, not broken, t["sp"], ("reviewed: " + otable["R7-ovf|" + k]) if not broken else "the reviewed reason relies on %s, which no longer holds" % broken, via=("table:" + otable["R7-ovf|" + k]) if not broken else None)
+            else:
+                ctx.ob("R7-ovf", k, False, t["sp"], "checked arithmetic on a wire-controlled integer (%s): panics in builds with overflow checks, wraps otherwise" % "; ".join(why[:2]))
+    if ctx.config == "dev":
+        ctx.floor("overflow-checked operations on wire-controlled integers (dev facts)", n_ovf, 6)
     # ---------------- R6d
     sites = []
     for p, r in sorted(f.fns.items()):
